@@ -107,12 +107,12 @@ func (p *msgParser) msg() sdk.Msg {
 }
 
 var kindURL = map[string]string{
-	"prevote": "/settlus.oracle.MsgPrevote", "vote": "/settlus.oracle.MsgVote", "consent": "/settlus.oracle.MsgFeederDelegationConsent",
-	"createtenant": "/settlus.settlement.MsgCreateTenant", "createtenantmc": "/settlus.settlement.MsgCreateTenantWithMintableContract",
-	"deposit": "/settlus.settlement.MsgDepositToTreasury", "record": "/settlus.settlement.MsgRecord", "cancel": "/settlus.settlement.MsgCancel",
-	"addadmin": "/settlus.settlement.MsgAddTenantAdmin", "rmadmin": "/settlus.settlement.MsgRemoveTenantAdmin", "setperiod": "/settlus.settlement.MsgUpdateTenantPayoutPeriod",
-	"send": "/cosmos.bank.v1beta1.MsgSend", "exec": "/cosmos.authz.v1beta1.MsgExec", "grant": "/cosmos.authz.v1beta1.MsgGrant",
-	"createval": "/cosmos.staking.v1beta1.MsgCreateValidator", "delegate": "/cosmos.staking.v1beta1.MsgDelegate", "ethtx": "/ethermint.evm.v1.MsgEthereumTx",
+	"prevote": sdk.MsgTypeURL(&otypes.MsgPrevote{}), "vote": sdk.MsgTypeURL(&otypes.MsgVote{}), "consent": sdk.MsgTypeURL(&otypes.MsgFeederDelegationConsent{}),
+	"createtenant": sdk.MsgTypeURL(&stypes.MsgCreateTenant{}), "createtenantmc": sdk.MsgTypeURL(&stypes.MsgCreateTenantWithMintableContract{}),
+	"deposit": sdk.MsgTypeURL(&stypes.MsgDepositToTreasury{}), "record": sdk.MsgTypeURL(&stypes.MsgRecord{}), "cancel": sdk.MsgTypeURL(&stypes.MsgCancel{}),
+	"addadmin": sdk.MsgTypeURL(&stypes.MsgAddTenantAdmin{}), "rmadmin": sdk.MsgTypeURL(&stypes.MsgRemoveTenantAdmin{}), "setperiod": sdk.MsgTypeURL(&stypes.MsgUpdateTenantPayoutPeriod{}),
+	"send": sdk.MsgTypeURL(&banktypes.MsgSend{}), "exec": sdk.MsgTypeURL(&authz.MsgExec{}), "grant": sdk.MsgTypeURL(&authz.MsgGrant{}),
+	"createval": sdk.MsgTypeURL(&stakingtypes.MsgCreateValidator{}), "delegate": sdk.MsgTypeURL(&stakingtypes.MsgDelegate{}), "ethtx": sdk.MsgTypeURL(&evmtypes.MsgEthereumTx{}),
 	"vesting": "/cosmos.vesting.v1beta1.MsgCreateVestingAccount",
 }
 
